@@ -31,6 +31,22 @@ theorem linkIfAbsent_no_panic (c : Cfg) (h t : Nat) (cond : Option Expr) : linkI
     · simp
     · rename_i hp; exact absurd hp this
 
+theorem linkOrMerge_no_panic (c : Cfg) (h t : Nat) (cond : Option Expr) : linkOrMerge c h t cond ≠ .panic := by
+  unfold linkOrMerge
+  split
+  · split
+    · split
+      · have : ∀ a b : Expr, Expr.mkBin .or a b ≠ .panic := by
+          intro a b; unfold Expr.mkBin; split <;> simp
+        split
+        · simp
+        · simp
+        · rename_i hp; exact absurd hp (this _ _)
+      · simp
+    · simp
+    · simp
+  · exact linkIfAbsent_no_panic _ _ _ _
+
 theorem placeInstr_no_panic (st : AsmState) {g : Function} (hg : WF g.cfg) : placeInstr st g ≠ .panic := by
   unfold placeInstr
   split
@@ -140,7 +156,7 @@ theorem succLoop_no_panic (bx : Nat) (st : AsmState) (ss : List (Nat × Option E
     · split
       · exact ih _ (fun x hx => hk x (List.mem_cons_of_mem _ hx))
       · simp
-      · rename_i hp; exact absurd hp (linkIfAbsent_no_panic _ _ _ _)
+      · rename_i hp; exact absurd hp (linkOrMerge_no_panic _ _ _ _)
     · rename_i hno; rw [hno] at h1; cases h1
 
 theorem succsLoop_no_panic (st : AsmState) (tb : List (Nat × BTR)) (hw : WF st.cfg)
